@@ -386,6 +386,14 @@ def run(ctx):
         tags = case.get("tags", [])
         if reason == "to2_failed_without_cause":
             detail = category(res.get("msg", ""))
+            # the known defect: a devmod message split over two protocol messages (visible on the wire as a
+            # value that is not a whole CBOR item); the same error text without a fragment is another failure
+            frag = [kv[1] for e in r if e["ev"] == "m68" for kv in e["kvs"] if kv[0] == "devmod" and len(kv) > 4 and not kv[4]]
+            if detail in ("devmod-modules-fragment", "devmod-descriptor-fragment"):
+                if not frag:
+                    detail = detail.replace("-fragment", "-rejected-whole-message")
+                else:
+                    detail = "devmod-modules-fragment" if "modules" in frag else "devmod-descriptor-fragment"
             if detail == "timeout" and not any(e["ev"] == "owner_devmod" for e in r):
                 detail = "timeout-devmod-never-completes"
             if not any(e["ev"] == "owner_devmod" for e in r):
